@@ -173,6 +173,9 @@ void harness(void)
 #ifdef FIRST
         if (s == 0) ASSUME(op == FIRST);
 #endif
+#ifdef FIXI
+        ASSUME(i == FIXI && j == FIXJ);
+#endif
         switch (op) {
         case 0: ir_ba_construct(i, n, v); L[i] = n; for (k = 0; k < CAP; ++k) if (k < n) M[i][k] = v; break;
         case 1: ir_ba_assign(i, j); L[i] = L[j]; for (k = 0; k < CAP; ++k) M[i][k] = M[j][k]; break;
